@@ -74,6 +74,11 @@ def run(ck):
     r5(ck)
     r6(ck)
     r7(ck)
+    # R8: in the parallel mode "the state left by earlier patches of the same run" is the state of one worker: a file patch sees what was
+    # done to its old and new name only if everything that named them ran on the same worker - the grouping of related names (C07)
+    from . import c07
+    from ..framework import RuleAlias
+    c07.run(RuleAlias(ck, lambda r: "C16-R8"))
 
 
 def r1(ck):
